@@ -253,6 +253,7 @@ void conf_fill_dir(const plan_t *p)
 void conf_env_setup(const plan_t *p)
 {
     long v1 = plan_get(p, "env.v1len", 0), hl = plan_get(p, "env.homelen", 0), td = plan_get(p, "tmpdir", 0);
+    clearenv(); setenv("LC_ALL", "C", 1);          /* (whatever an earlier pass or cycle set is gone) */
     setenv("HOME", "/home/u", 1); setenv("V1", "val-one", 1); setenv("EMPTY", "", 1); setenv("LONG_name_9", "L", 1);
     if (v1 > 0 && v1 <= 70000) { char *b = malloc((size_t)v1 + 1); memset(b, 'w', (size_t)v1); b[v1] = 0; setenv("V1", b, 1); free(b); probe_hit("long_env_value"); }
     if (hl > 0 && hl <= 70000) { char *b = malloc((size_t)hl + 3); b[0] = '/'; memset(b + 1, 'h', (size_t)hl); b[hl + 1] = 0; setenv("HOME", b, 1); free(b); probe_hit("long_home"); }
